@@ -93,6 +93,15 @@ func (s *session) QueryMachine() error {
 			}
 			if table, cols, ok := parseCopyStatement(statements); ok {
 				s.log.Infof("pgcompat: COPY detected for table=%s cols=%d", table, len(cols))
+				if s.txStatus == bm.TxStatusFailed {
+					// as every other statement: refused inside an aborted block
+					// (its rows would be inserted outside any transaction)
+					s.HandleError(pserr.ErrInFailedSQLTransaction)
+					if _, err = s.writeMessage(bm.ReadyForQuery(s.txStatus)); err != nil {
+						waitForSync = extQueryMode
+					}
+					continue
+				}
 				if err := s.handleCopyFromStdin(table, cols); err != nil {
 					s.HandleError(err)
 				}
